@@ -122,7 +122,7 @@ func (n *Net) fault(op string, handle int) string {
 		if f.Op != op {
 			continue
 		}
-		if f.K == k {
+		if f.K == k || f.K == 0 {
 			n.Injected++
 			n.InjectedAt = append(n.InjectedAt, Call{op, handle, k})
 			return f.Class
@@ -416,6 +416,7 @@ type SynAckSpec struct {
 	NoiseKind     string `json:"noise_kind,omitempty"`  // precede the genuine SYN-ACK with mutations of it (see Listener.Mutate)
 	NoiseArg      int    `json:"noise_arg,omitempty"`
 	NoiseForeign  bool   `json:"noise_foreign,omitempty"` // the mutated SYN-ACKs belong to another flow (client port differs)
+	LateCopyMs    int    `json:"late_copy_ms,omitempty"`  // one more copy of the genuine SYN-ACK this long after the first (a retransmission seen during the probe phase)
 	FloodCount    int    `json:"flood_count,omitempty"`   // SYN-ACKs of other connections to the same target, ...
 	FloodEveryMs  int    `json:"flood_every_ms,omitempty"` // ... this far apart, starting when the connection is accepted
 }
@@ -538,6 +539,9 @@ func (l *Listener) poll(n *Net) {
 		}
 		for i := 0; i < copies; i++ {
 			n.Schedule(Reply{DelayNs: l.Spec.DelayNs, Raw: mk(l.Addr, client), Meta: Meta{ToTTL: -1, Tag: "handshake-synack", From: l.Addr.Addr(), Flow: -1, Genuine: true}})
+		}
+		if l.Spec.LateCopyMs > 0 {
+			n.Schedule(Reply{DelayNs: l.Spec.DelayNs + int64(l.Spec.LateCopyMs)*1_000_000, Raw: mk(l.Addr, client), Meta: Meta{ToTTL: -1, Tag: "handshake-synack-retransmitted", From: l.Addr.Addr(), Flow: -1}})
 		}
 	}
 }
